@@ -18,6 +18,8 @@ ASSUMPTIONS = []
 
 ALPHA1 = "0189aexXbBuUlLfFpP.+-"
 ALPHA2 = "01a'\"\\xLu8 ?n"
+ALPHA3 = "'\\xAf07u"      # character constants with hex / octal escapes in both letter cases
+ALPHA4 = "\"\\xAg08L"     # the same for string literals
 MALFORMED = ["08", "0129", "''", "'a", "'ab", "\"abc", "'\\@'", "\"a\\@b\"", "/* c */", "// c", "'\\", "\"\\", "'\n'", "\"a\nb\"", "'a\nb'"]
 
 
@@ -69,8 +71,11 @@ def run(ctx):
     k1, k2 = (4, 4) if ctx.quick() else (5, 6)
     texts = ["".join(p) for n in range(1, k1 + 1) for p in itertools.product(ALPHA1, repeat=n)]
     texts += ["".join(p) for n in range(1, k2 + 1) for p in itertools.product(ALPHA2, repeat=n)]
+    k3 = 5 if ctx.quick() else 6
+    texts += ["".join(p) for n in range(1, k3 + 1) for p in itertools.product(ALPHA3, repeat=n)]
+    texts += ["".join(p) for n in range(1, k3 + 1) for p in itertools.product(ALPHA4, repeat=n)]
     texts = list(dict.fromkeys(texts))
-    ctx.rule("all strings of length <=%d over %r and <=%d over %r (exhaustive): the real lexer returns the whole string as one literal token of class K iff Spec.Lex.classify says it is a well-formed literal of class K; the Lean scanner model must agree token for token; plus random long literals of every kind with random suffixes (class and Constant.type/value through the parser), plus malformed families that must be reported through the error callback" % (k1, ALPHA1, k2, ALPHA2))
+    ctx.rule("all strings of length <=%d over %r, <=%d over %r, <=%d over %r and %r (exhaustive): the real lexer returns the whole string as one literal token of class K iff Spec.Lex.classify says it is a well-formed literal of class K; the Lean scanner model must agree token for token; plus random long literals of every kind with random suffixes (class and Constant.type/value through the parser), plus malformed families that must be reported through the error callback" % (k1, ALPHA1, k2, ALPHA2, k3, ALPHA3, ALPHA4))
     py = pmap(impl_class, texts)
     sp = run_model([req("c10", t) for t in texts]) if ctx.model_available else None
     nontriv = 0
